@@ -26,6 +26,8 @@ func checkC04(c *Ctx) {
 	c.hashmapSiblings()
 	c.reinitOrder()
 	c.hashMapLocks("LOCKSET")
+	c.Decides("FRESH: ClearBitSets gives every branch a new bitset of the current tip count, unconditionally (no reuse of a bitset whose width belongs to an earlier tip set)")
+	c.freshBitsets("FRESH")
 	c.Floor("NET", 1)
 	c.Floor("PRESENT", 3)
 	c.Floor("SYM", 3)
